@@ -80,7 +80,7 @@ def Outcome.toRes : Outcome → Res
   | .same => .same true
   | .up d => .up (some d)
   | .panic p s => .panic p s
-  | .oracle => .panic .other 0      -- never evaluated: the driver answers `bad-op`
+  | .oracle => .err .other 0 true false   -- never evaluated: the driver answers `bad-op`
 
 /-! ### The version stamp -/
 
@@ -88,7 +88,7 @@ def lookupE (k : Key) : List (Key × YVal) → Option YVal
   | [] => none
   | (k', v) :: es => if k' = k then some v else lookupE k es
 
-def stampKey : Key := [115, 99, 104, 101, 109, 97, 95, 118, 101, 114, 115, 105, 111, 110]  -- "schema_version"
+def stampKey : Key := kSchemaVersion  -- "schema_version"
 
 /-- The schema version a document declares: an absent or null stamp is version 0. -/
 def versionOf (d : YVal) : Option Nat :=
@@ -213,6 +213,21 @@ def frameOK (fp : List Path) (din : YVal) (dout : Option YVal) : Bool := frameV 
 
 /-! ### The clauses -/
 
+mutual
+/-- The document holds a float that YAML writes back as an integer. -/
+def hasIntegralFloat (o : Oracles) : YVal → Bool
+  | .opaque 1 p => (match o.rt 1 p with | some (.int _) => true | _ => false)
+  | .arr xs => hasIntegralFloatList o xs
+  | .obj es => hasIntegralFloatEnts o es
+  | _ => false
+def hasIntegralFloatList (o : Oracles) : List YVal → Bool
+  | [] => false
+  | x :: xs => hasIntegralFloat o x || hasIntegralFloatList o xs
+def hasIntegralFloatEnts (o : Oracles) : List (Key × YVal) → Bool
+  | [] => false
+  | (_, v) :: es => hasIntegralFloat o v || hasIntegralFloatEnts o es
+end
+
 inductive Why
   | panicked (p : PanicK) (step : Nat)
   | errorChangedFile
@@ -220,6 +235,9 @@ inductive Why
   | notUpgraded
   | currentFileChanged
   | pathDependent
+  /-- path dependence of a document that holds an integral float (`86400.0`),
+      which YAML writes back as an integer (known finding, keyed separately) -/
+  | pathDependentFloat
   | settingLost (step : Nat)
   deriving Repr
 
@@ -252,43 +270,70 @@ def splitOK (one : Res) (sr : Nat × Res) : Bool :=
   | .same _, .same _ => true
   | _, _ => false
 
-def specWhy (orc : Oracles) (c : Case) (o : Obs) : Option Why :=
-  -- never panics
-  match firstSome Res.panicWhy (allRes o) with
-  | some w => some w
-  | none =>
-  -- an error leaves the file content unchanged
-  if !(allRes o).all Res.wrapperOK then some .errorChangedFile
-  -- a produced document is stamped with the requested version
-  else if !(o.one.stampOK c.target && (o.splits.all (fun s => s.2.stampOK c.target))
-            && (match c.stepTarget, o.step with | some t, some r => r.stampOK t | _, _ => true)) then
-    some .notStamped
-  else
+/-- The current version of the case, when the upgrade is a real one (`cur ≤ target ≤ 29`). -/
+def caseVersion (c : Case) : Option (YVal × Nat) :=
   match c.parsed with
   | none => none
   | some din0 =>
     match versionOf din0 with
     | none => none
-    | some cur =>
-      -- the settings as YAML writes them back (`1.5e3` is the setting `1500`)
-      let din := (reparse orc (match din0 with | .null => .obj [] | d => d)).getD din0
-      if cur > c.target || c.target > 29 then none
-      -- upgrading an already current file changes nothing
-      else if cur == c.target then
-        (match o.one with | .same true => none | _ => some .currentFileChanged)
-      -- it either fails with an error or produces a document
-      else if (match o.one with | .same _ => true | _ => false) then some .notUpgraded
-      -- one run or several partial runs
-      else if !((c.ks.zip o.splits).all (fun ks => ks.1 < cur || ks.1 > c.target || splitOK o.one ks.2)) then
-        some .pathDependent
-      -- settings a step does not concern are preserved
-      else if (match c.stepTarget, o.step with
-               | some t, some (.up d) => t == cur + 1 && !frameOK (touched t) din d
-               | _, _ => false) then some (.settingLost (cur + 1))
-      else if (match o.one with
-               | .up d => !frameOK (touchedRange (c.target - cur) cur) din d
-               | _ => false) then some (.settingLost 0)
-      else none
+    | some cur => if cur > c.target || c.target > 29 then none else some (din0, cur)
+
+/-- Every produced document carries the requested version. -/
+def stampsOK (c : Case) (o : Obs) : Bool :=
+  o.one.stampOK c.target && (o.splits.all (fun s => s.2.stampOK c.target))
+    && (match c.stepTarget, o.step with | some t, some r => r.stampOK t | _, _ => true)
+
+/-- never panics; an error leaves the file unchanged; a produced document is stamped;
+a current file is left alone; otherwise the upgrade fails or produces a document -/
+def coreWhy (c : Case) (o : Obs) : Option Why :=
+  match firstSome Res.panicWhy (allRes o) with
+  | some w => some w
+  | none =>
+  if !(allRes o).all Res.wrapperOK then some .errorChangedFile
+  else if !stampsOK c o then some .notStamped
+  else
+  match caseVersion c with
+  | none => none
+  | some (_, cur) =>
+    if cur == c.target then
+      (match o.one with | .same true => none | _ => some .currentFileChanged)
+    else if (match o.one with | .same _ => true | _ => false) then some .notUpgraded
+    else none
+
+/-- one run or several partial runs -/
+def pathWhy (orc : Oracles) (c : Case) (o : Obs) : Option Why :=
+  match caseVersion c with
+  | none => none
+  | some (din0, cur) =>
+    if cur == c.target then none
+    else if !((c.ks.zip o.splits).all (fun ks => ks.1 < cur || ks.1 > c.target || splitOK o.one ks.2)) then
+      some (if hasIntegralFloat orc din0 then .pathDependentFloat else .pathDependent)
+    else none
+
+/-- settings a step does not concern are preserved -/
+def frameWhy (orc : Oracles) (c : Case) (o : Obs) : Option Why :=
+  match caseVersion c with
+  | none => none
+  | some (din0, cur) =>
+    if cur == c.target then none else
+    -- the settings as YAML writes them back (`1.5e3` is the setting `1500`)
+    let din := (reparse orc (match din0 with | .null => .obj [] | d => d)).getD din0
+    if (match c.stepTarget, o.step with
+        | some t, some (.up d) => t == cur + 1 && !frameOK (touched t) din d
+        | _, _ => false) then some (.settingLost (cur + 1))
+    else if (match o.one with
+             | .up d => !frameOK (touchedRange (c.target - cur) cur) din d
+             | _ => false) then some (.settingLost 0)
+    else none
+
+def specWhy (orc : Oracles) (c : Case) (o : Obs) : Option Why :=
+  match coreWhy c o with
+  | some w => some w
+  | none =>
+    match pathWhy orc c o with
+    | some w => some w
+    | none => frameWhy orc c o
 
 def specOK (orc : Oracles) (c : Case) (o : Obs) : Bool := (specWhy orc c o).isNone
 
